@@ -391,6 +391,12 @@ func (tr *fnTrans) appendOp(in *ssa.Call, s, xs Term) {
 		for j := int64(0); j < n; j++ {
 			tr.hyp(implies(in0, app("=", app(at, A2, r, app("+", ln, intLit(j))), app(at, A, xs.S, intLit(j)))))
 		}
+		if es == SCur && n == 1 {
+			x := app(at, A, xs.S, "0")
+			m1 := fmt.Sprintf("(forall ((n!a Cursor)) (! (= (mem %s %s n!a) (or (mem %s %s n!a) (= n!a %s))) :pattern ((mem %s %s n!a)) :pattern ((mem %s %s n!a))))", A2, r, A, s.S, x, A2, r, A, s.S)
+			tr.hyp(implies(in0, m1))
+			tr.items[len(tr.items)-1].needs = "mem"
+		}
 		return
 	}
 	// general case
@@ -420,6 +426,15 @@ func (tr *fnTrans) appendOp(in *ssa.Call, s, xs Term) {
 			nn, at, A1, r.S, ln, at, A, xs.S, at, A, xs.S)))
 		tr.hyp(implies(in0, fmt.Sprintf("(forall ((k!a Int)) (! (=> (and (<= %s k!a) (< k!a %s)) (= (%s %s %s k!a) (%s %s %s (- k!a %s)))) :pattern ((%s %s %s k!a))))",
 			ln, nl, at, A1, r.S, at, A, xs.S, ln, at, A1, r.S)))
+	}
+	if es == SCur {
+		// membership consequences (module nodeset): the result holds exactly the members of both operands
+		m1 := fmt.Sprintf("(forall ((n!a Cursor)) (! (=> (or (mem %s %s n!a) (mem %s %s n!a)) (mem %s %s n!a)) :pattern ((mem %s %s n!a)) :pattern ((mem %s %s n!a))))", A, s.S, A, xs.S, A1, r.S, A, s.S, A, xs.S)
+		tr.hyp(implies(in0, m1))
+		tr.items[len(tr.items)-1].needs = "mem"
+		m2 := fmt.Sprintf("(forall ((n!a Cursor)) (! (=> (mem %s %s n!a) (or (mem %s %s n!a) (mem %s %s n!a))) :pattern ((mem %s %s n!a))))", A1, r.S, A, s.S, A, xs.S, A1, r.S)
+		tr.hyp(implies(in0, m2))
+		tr.items[len(tr.items)-1].needs = "mem"
 	}
 	tr.hyp(implies(and(in0, inplace), fmt.Sprintf("(forall ((k!a Int)) (! (=> (or (< k!a (+ %s %s)) (>= k!a (+ %s %s))) (= (select (select %s %s) k!a) (select (select %s %s) k!a))) :pattern ((select (select %s %s) k!a))))",
 		slOff(s.S), ln, slOff(s.S), nl, A1, slArr(s.S), A, slArr(s.S), A1, slArr(s.S))))
